@@ -38,7 +38,9 @@ import (
 	"github.com/smallstep/certificates/authority/admin"
 	adminnosql "github.com/smallstep/certificates/authority/admin/db/nosql"
 	"github.com/smallstep/certificates/authority/config"
+	authpolicy "github.com/smallstep/certificates/authority/policy"
 	"github.com/smallstep/certificates/db"
+	capolicy "github.com/smallstep/certificates/policy"
 	"github.com/smallstep/nosql"
 	c "verif/harness/common"
 )
@@ -125,15 +127,129 @@ func (f *faultDB) GetAdmins(ctx context.Context) ([]*linkedca.Admin, error) {
 	return f.DB.GetAdmins(ctx)
 }
 
+func (f *faultDB) CreateAuthorityPolicy(ctx context.Context, p *linkedca.Policy) error {
+	if f.hit("w") {
+		return errInjected
+	}
+	return f.DB.CreateAuthorityPolicy(ctx, p)
+}
+func (f *faultDB) UpdateAuthorityPolicy(ctx context.Context, p *linkedca.Policy) error {
+	if f.hit("w") {
+		return errInjected
+	}
+	return f.DB.UpdateAuthorityPolicy(ctx, p)
+}
+func (f *faultDB) DeleteAuthorityPolicy(ctx context.Context) error {
+	if f.hit("w") {
+		return errInjected
+	}
+	return f.DB.DeleteAuthorityPolicy(ctx)
+}
+func (f *faultDB) GetAuthorityPolicy(ctx context.Context) (*linkedca.Policy, error) {
+	if f.hit("r") {
+		return nil, errInjected
+	}
+	return f.DB.GetAuthorityPolicy(ctx)
+}
+
+// ---------- policies ----------
+
+// universe of subjects whose verdicts are reported (all admin subjects the generator uses)
+var univ = []string{"s0", "s1", "s2", "step"}
+
+type polSpec struct {
+	tag         string
+	allow, deny []string
+	empty       bool // an X.509 part without names
+}
+
+var polPool = []polSpec{
+	{tag: "all", allow: []string{"s0", "s1", "s2", "step"}},
+	{tag: "onlystep", allow: []string{"step"}},
+	{tag: "nostep", allow: []string{"s0", "s1", "s2"}},
+	{tag: "denys1", allow: []string{"s0", "s1", "s2", "step"}, deny: []string{"s1"}},
+	{tag: "empty", empty: true},
+	{tag: "bad", allow: []string{"**.bad..name"}},
+}
+
+func polByTag(tag string) *polSpec {
+	for i := range polPool {
+		if polPool[i].tag == tag {
+			return &polPool[i]
+		}
+	}
+	return nil
+}
+
+func (ps *polSpec) linked() *linkedca.Policy {
+	if ps.empty {
+		return &linkedca.Policy{X509: &linkedca.X509Policy{}} // an X.509 part without any name: no engine
+	}
+	x := &linkedca.X509Policy{Allow: &linkedca.X509Names{Dns: ps.allow}}
+	if len(ps.deny) > 0 {
+		x.Deny = &linkedca.X509Names{Dns: ps.deny}
+	}
+	return &linkedca.Policy{X509: x}
+}
+
+func tagOf(p *linkedca.Policy) string {
+	if p == nil {
+		return "!"
+	}
+	var allow, deny []string
+	if p.GetX509() != nil {
+		allow, deny = p.GetX509().GetAllow().GetDns(), p.GetX509().GetDeny().GetDns()
+	}
+	for _, ps := range polPool {
+		if p.GetX509() != nil && strings.Join(ps.allow, ",") == strings.Join(allow, ",") && strings.Join(ps.deny, ",") == strings.Join(deny, ",") {
+			return hx(ps.tag)
+		}
+	}
+	return hx("unknown")
+}
+
+func verdictOf(err error) string {
+	if err == nil {
+		return "a"
+	}
+	var pe *capolicy.NamePolicyError
+	if errors.As(err, &pe) && pe.Reason == capolicy.NotAllowed {
+		return "n"
+	}
+	return "e"
+}
+
+// polField renders a policy for the model: tag, what the engine constructor makes of it, and the
+// verdict of the real engine on every subject of the universe
+func (ps *polSpec) field() string {
+	opts := authpolicy.LinkedToCertificates(ps.linked())
+	if opts == nil {
+		return hx(ps.tag) + "~n~-"
+	}
+	eng, err := authpolicy.NewX509PolicyEngine(opts.GetX509Options())
+	if err != nil {
+		return hx(ps.tag) + "~b~-"
+	}
+	if eng == nil {
+		return hx(ps.tag) + "~n~-"
+	}
+	var vs []string
+	for _, sub := range univ {
+		vs = append(vs, hx(sub)+"."+verdictOf(eng.AreSANsAllowed([]string{sub})))
+	}
+	return hx(ps.tag) + "~e~" + strings.Join(vs, "+")
+}
+
 // ---------- case ----------
 
 type Op struct {
 	K string   // ip ia boot rs sa ua ra sp up rp la lp
 	A []string // ia/sa: subject, provisioner NAME; ua/ra/rp: id ("@n" = n-th admin/provisioner id created in this case);
 	//            ip/sp: name; up: id ref, new name
-	B bool  // admin type (super)
-	F []int // fault positions
-	N int   // page size
+	P string // policy tag (cp mp; up sp: the provisioner's own policy, "" = none)
+	B bool   // admin type (super)
+	F []int  // fault positions
+	N int    // page size
 }
 
 type Case struct{ Ops []Op }
@@ -286,6 +402,23 @@ func (w *world) class(err error) string {
 	if err == nil {
 		return "ok"
 	}
+	var pe *authority.PolicyError
+	if errors.As(err, &pe) {
+		switch pe.Typ {
+		case authority.AdminLockOut:
+			return "lockout"
+		case authority.StoreFailure:
+			return "storefail"
+		case authority.ReloadFailure:
+			return "reloadfail"
+		case authority.ConfigurationFailure:
+			return "config"
+		case authority.EvaluationFailure:
+			return "eval"
+		case authority.InternalFailure:
+			return "internal"
+		}
+	}
 	for _, n := range w.fdb.fired {
 		if n == "r" {
 			return "reloadfail"
@@ -387,8 +520,21 @@ func (w *world) dump() (out string) {
 	for _, p := range dps {
 		dP = append(dP, hx(p.Id)+"."+hx(p.Name)+"."+hx(tokID(p.Name)))
 	}
-	return fmt.Sprintf("A[%s]S[%s]P[%s]dA[%s]dP[%s]", strings.Join(aList, ","), sortedJoin(aSp), sortedJoin(pList),
-		strings.Join(dA, ","), sortedJoin(dP))
+	dpol, _ := w.inner.GetAuthorityPolicy(ctx)
+	var eng []string
+	for _, sub := range univ {
+		eng = append(eng, hx(sub)+"."+verdictOf(w.auth.AreSANsAllowed(ctx, []string{sub})))
+	}
+	return fmt.Sprintf("A[%s]S[%s]P[%s]dA[%s]dP[%s]pol=%sE[%s]", strings.Join(aList, ","), sortedJoin(aSp), sortedJoin(pList),
+		strings.Join(dA, ","), sortedJoin(dP), tagOf(dpol), strings.Join(eng, ","))
+}
+
+func univToken() string {
+	var xs []string
+	for _, sub := range univ {
+		xs = append(xs, hx(sub))
+	}
+	return "u:" + strings.Join(xs, ",")
 }
 
 // exec runs one operation and returns (model token, implementation item).
@@ -470,6 +616,11 @@ func (w *world) exec(o Op) (tok, item string) {
 	case "sp":
 		w.names[o.A[0]] = true
 		p := newProv(o.A[0])
+		polF := ""
+		if ps := polByTag(o.P); ps != nil {
+			p.Policy = ps.linked()
+			polF = ":" + ps.field()
+		}
 		run(func() { err = w.auth.StoreProvisioner(ctx, p) })
 		id := p.Id
 		if id == "" {
@@ -477,7 +628,29 @@ func (w *world) exec(o Op) (tok, item string) {
 		} else {
 			w.provIDs = append(w.provIDs, id)
 		}
-		return "sp:" + provFields(id, o.A[0]) + ":" + faultsS(o.F), fin()
+		return "sp:" + provFields(id, o.A[0]) + ":" + faultsS(o.F) + polF, fin()
+	case "cp", "mp":
+		ps := polByTag(o.P)
+		if ps == nil {
+			return "", ""
+		}
+		cur := &linkedca.Admin{Subject: o.A[0]}
+		run(func() {
+			if o.K == "cp" {
+				_, err = w.auth.CreateAuthorityPolicy(ctx, cur, ps.linked())
+			} else {
+				_, err = w.auth.UpdateAuthorityPolicy(ctx, cur, ps.linked())
+			}
+		})
+		return fmt.Sprintf("%s:%s:%s:%s", o.K, hx(o.A[0]), ps.field(), faultsS(o.F)), fin()
+	case "dp":
+		// the admin API answers 404 without calling RemoveAuthorityPolicy when no policy is stored;
+		// calling it anyway after an earlier delete dereferences a nil record (notes/C16.md)
+		if pol, _ := w.inner.GetAuthorityPolicy(ctx); pol == nil {
+			return "", ""
+		}
+		run(func() { err = w.auth.RemoveAuthorityPolicy(ctx) })
+		return "dp:" + faultsS(o.F), fin()
 	case "up":
 		id := w.ref(w.provIDs, o.A[0])
 		w.names[o.A[1]] = true
@@ -487,8 +660,13 @@ func (w *world) exec(o Op) (tok, item string) {
 			nu.Id = id
 		}
 		nu.Name = o.A[1]
+		polF := ""
+		if ps := polByTag(o.P); ps != nil {
+			nu.Policy = ps.linked()
+			polF = ":" + ps.field()
+		}
 		run(func() { err = w.auth.UpdateProvisioner(ctx, nu) })
-		return "up:" + provFields(id, o.A[1]) + ":" + faultsS(o.F), fin()
+		return "up:" + provFields(id, o.A[1]) + ":" + faultsS(o.F) + polF, fin()
 	case "rp":
 		id := w.ref(w.provIDs, o.A[0])
 		run(func() { err = w.auth.RemoveProvisioner(ctx, id) })
@@ -583,6 +761,43 @@ func (w *world) check(o Op, id string, before []*linkedca.Admin, err error) stri
 			return "auth-index-stale"
 		}
 	}
+	// which policy applies: the engine answers like the stored policy
+	dpol, _ := w.inner.GetAuthorityPolicy(ctx)
+	var stored authpolicy.X509Policy
+	if opts := authpolicy.LinkedToCertificates(dpol); opts != nil {
+		stored, _ = authpolicy.NewX509PolicyEngine(opts.GetX509Options())
+	}
+	for _, sub := range univ {
+		want := "a"
+		if stored != nil {
+			want = verdictOf(stored.AreSANsAllowed([]string{sub}))
+		}
+		if verdictOf(w.auth.AreSANsAllowed(ctx, []string{sub})) != want {
+			return "policy-stale"
+		}
+	}
+	// an accepted authority policy allows every administrator in the database
+	if (o.K == "cp" || o.K == "mp") && err == nil && stored != nil {
+		for _, a := range das {
+			if verdictOf(stored.AreSANsAllowed([]string{a.Subject})) != "a" {
+				return "policy-lockout"
+			}
+		}
+	}
+	// an accepted provisioner policy allows every administrator of that provisioner
+	if (o.K == "up" || o.K == "sp") && err == nil {
+		if ps := polByTag(o.P); ps != nil {
+			if opts := authpolicy.LinkedToCertificates(ps.linked()); opts != nil {
+				if eng, e := authpolicy.NewX509PolicyEngine(opts.GetX509Options()); e == nil && eng != nil {
+					for _, a := range das {
+						if a.ProvisionerId == id && verdictOf(eng.AreSANsAllowed([]string{a.Subject})) != "a" {
+							return "provpolicy-lockout"
+						}
+					}
+				}
+			}
+		}
+	}
 	// a restarted CA must come up and list the same
 	old := w.auth
 	w.fdb.disarm()
@@ -619,8 +834,8 @@ func (k *Case) runProps() (line, verdict string) {
 	w, err := newWorld()
 	must(err)
 	defer w.close()
-	toks := []string{"auth"}
-	roleChanged, renamed, tainted := false, false, false
+	toks := []string{"auth", univToken()}
+	roleChanged, renamed, tainted, single := false, false, false, false
 	verdict = "ok"
 	for i, o := range k.Ops {
 		var before []*linkedca.Admin
@@ -670,12 +885,21 @@ func (k *Case) runProps() (line, verdict string) {
 		if o.K == "up" && cls == "ok" && oldName != "" && oldName != o.A[1] {
 			renamed = true
 		}
+		if o.K == "up" && cls == "reloadfail" && len(w.fdb.fired) == 1 && oldName != "" && oldName != o.A[1] {
+			renamed = true // the rename is in the database; only the reload after it failed
+		}
 		if cls == "reloadfail" {
-			// two storage failures in one request: outside the property's fault model. Cache and
-			// database may now disagree, and whatever is written while they do can be anything (e.g.
-			// the last real super admin deleted because the cache counts a phantom one), so the
-			// predicates are not evaluated for the rest of this sequence.
-			tainted = true
+			if len(w.fdb.fired) >= 2 {
+				// two storage failures in one request: outside the property's fault model. Cache and
+				// database may now disagree, and whatever is written while they do can be anything (e.g.
+				// the last real super admin deleted because the cache counts a phantom one), so the
+				// predicates are not evaluated for the rest of this sequence.
+				tainted = true
+			} else {
+				// ONE failure, in the re-read after a successful write (reload after a rename,
+				// policy-engine reload): within the fault model, evaluated (findings C16-F1/F2)
+				single = true
+			}
 		}
 		if tainted {
 			continue
@@ -687,6 +911,12 @@ func (k *Case) runProps() (line, verdict string) {
 		if bad := w.check(o, id, before, opErr); bad != "" {
 			q := "plain"
 			switch {
+			case strings.HasPrefix(bad, "provpolicy-lockout"):
+				if o.K == "up" && oldName != "" && oldName != o.A[1] {
+					q = "rename"
+				}
+			case single:
+				q = "reload1"
 			case roleChanged && renamed:
 				q = "rolechange+renamed"
 			case roleChanged:
@@ -707,7 +937,7 @@ func (k *Case) run() (line, impl string) {
 	w, err := newWorld()
 	must(err)
 	defer w.close()
-	toks := []string{"auth"}
+	toks := []string{"auth", univToken()}
 	var items []string
 	for _, o := range k.Ops {
 		if w.auth == nil && o.K != "ip" && o.K != "ia" && o.K != "boot" {
@@ -763,6 +993,13 @@ func genFaults(r *c.Rng) []int {
 	return nil
 }
 
+func maybePol(r *c.Rng) string {
+	if r.Chance(1, 4) {
+		return c.Pick(r, polPool).tag
+	}
+	return ""
+}
+
 func genCase(r *c.Rng) *Case {
 	k := &Case{}
 	np := 1 + r.Intn(2)
@@ -798,14 +1035,17 @@ func genCase(r *c.Rng) *Case {
 		case x < 50:
 			k.Ops = append(k.Ops, Op{K: "ra", A: []string{ar()}, F: genFaults(r)})
 		case x < 60:
-			k.Ops = append(k.Ops, Op{K: "sp", A: []string{c.Pick(r, nameP)}, F: genFaults(r)})
+			k.Ops = append(k.Ops, Op{K: "sp", A: []string{c.Pick(r, nameP)}, F: genFaults(r), P: maybePol(r)})
 			npv++
 		case x < 72:
-			k.Ops = append(k.Ops, Op{K: "up", A: []string{pr(), c.Pick(r, nameP)}, F: genFaults(r)})
+			k.Ops = append(k.Ops, Op{K: "up", A: []string{pr(), c.Pick(r, nameP)}, F: genFaults(r), P: maybePol(r)})
 		case x < 82:
 			k.Ops = append(k.Ops, Op{K: "rp", A: []string{pr()}, F: genFaults(r)})
-		case x < 88:
+		case x < 85:
 			k.Ops = append(k.Ops, Op{K: "rs"})
+		case x < 89:
+			kind := c.Pick(r, []string{"cp", "cp", "mp", "dp"})
+			k.Ops = append(k.Ops, Op{K: kind, A: []string{c.Pick(r, univ)}, P: c.Pick(r, polPool).tag, F: genFaults(r)})
 		case x < 94:
 			k.Ops = append(k.Ops, Op{K: "la", N: c.Pick(r, lims)})
 		default:
@@ -831,6 +1071,15 @@ func corner() []*Case {
 		// storage failure at every position of RemoveProvisioner with two admins
 		with(Op{K: "sa", A: []string{"s2", "n1"}, B: false}, Op{K: "rp", A: []string{"@1"}, F: []int{2}}, Op{K: "rp", A: []string{"@1"}, F: []int{3}}, Op{K: "rp", A: []string{"@1"}}),
 		with(Op{K: "ua", A: []string{"@1"}, B: false, F: []int{1}}, Op{K: "ua", A: []string{"@1"}, B: false, F: []int{1, 2}}, Op{K: "rs"}),
+		// policies: lock-out refused, accepted, replaced, removed; engine follows the database
+		with(Op{K: "cp", A: []string{"step"}, P: "onlystep"}, Op{K: "cp", A: []string{"step"}, P: "all"}, Op{K: "cp", A: []string{"step"}, P: "all"},
+			Op{K: "mp", A: []string{"step"}, P: "denys1"}, Op{K: "mp", A: []string{"s1"}, P: "bad"}, Op{K: "mp", A: []string{"s1"}, P: "empty"},
+			Op{K: "rs"}, Op{K: "dp"}, Op{K: "dp"}, Op{K: "mp", A: []string{"step"}, P: "all"}),
+		// one storage failure in the re-read after a successful write (F1: rename, F2: policy)
+		with(Op{K: "up", A: []string{"@0", "n2"}, F: []int{2}}, Op{K: "ra", A: []string{"@0"}}),
+		with(Op{K: "cp", A: []string{"step"}, P: "nostep", F: []int{3}}, Op{K: "la", N: 2}),
+		// provisioner policy: refused without rename, accepted when the same update renames (F3)
+		with(Op{K: "up", A: []string{"@0", "n0"}, P: "nostep"}, Op{K: "up", A: []string{"@0", "n2"}, P: "nostep"}),
 	}
 }
 
